@@ -1,5 +1,6 @@
 #!/bin/bash
 # usage: confirm_mutation.sh <seeded-id> <property> <outdir> <demo-rel-path> <pkg-dir-rel-to-module> <run-regex> [module-dir=v2]
+# DEMO_FLAGS=-race for a demonstration that only fails under the race detector
 # Confirms in a scratch worktree of /repo: suite passes with the change, demo fails with it and passes without.
 # On success stores /verif/seeded/<seeded-id>/{patch.diff,demo file,meta.json,notes.md}.
 set -u
@@ -16,11 +17,11 @@ if [ -n "${ALLDEMOS:-}" ]; then   # a demonstration in several files of one pack
   for f in "$out"/*_test.go; do [ "$f" = "$demofile" ] || { cp "$f" "$wt/$(dirname $demorel)/"; extra="$extra $(dirname $demorel)/$(basename $f)"; }; done
 fi
 cd "$wt/$mod" || exit 2
-base=$(go test -count=1 -run "$re" ./$pkg 2>&1 | tail -3); base_rc=$?
+base=$(go test ${DEMO_FLAGS:-} -count=1 -run "$re" ./$pkg 2>&1 | tail -3); base_rc=$?
 echo "demo WITHOUT change: $base"
-go test -count=1 -run "$re" ./$pkg >/dev/null 2>&1; rc_without=$?
+go test ${DEMO_FLAGS:-} -count=1 -run "$re" ./$pkg >/dev/null 2>&1; rc_without=$?
 git -C "$wt" apply "$out/patch.diff" || { echo "patch does not apply to HEAD"; exit 3; }
-go test -count=1 -run "$re" ./$pkg >/tmp/confirm-$sid.log 2>&1; rc_with=$?
+go test ${DEMO_FLAGS:-} -count=1 -run "$re" ./$pkg >/tmp/confirm-$sid.log 2>&1; rc_with=$?
 echo "demo WITH change: rc=$rc_with"; tail -5 /tmp/confirm-$sid.log
 rm -f "$wt/$demorel"; for f in $extra; do rm -f "$wt/$f"; done
 (go build ./... && go test -count=1 ./... ) >/tmp/confirm-$sid.suite 2>&1; rc_suite=$?
@@ -33,7 +34,7 @@ if [ $rc_without -eq 0 ] && [ $rc_with -ne 0 ] && [ $rc_suite -eq 0 ]; then
   [ -f "$out/notes.md" ] && cp "$out/notes.md" /verif/seeded/$sid/notes.md
   cat > /verif/seeded/$sid/meta.json <<EOM
 {"id": "$sid", "property": "$prop", "base_commit": "$(git -C /repo log --format=%h -1)",
- "demo": {"place_at": "$demorel", "module_dir": "$mod", "run": "go test -count=1 -run '$re' ./$pkg"},
+ "demo": {"place_at": "$demorel", "module_dir": "$mod", "run": "go test ${DEMO_FLAGS:-} -count=1 -run '$re' ./$pkg"},
  "confirmed": {"suite_passes_with_change": true, "demo_fails_with_change": true, "demo_passes_without_change": true,
                "how": "tools/confirm_mutation.sh in a scratch worktree of /repo (removed afterwards)"},
  "needs": "see notes.md", "detected_by": "PENDING"}
